@@ -78,6 +78,14 @@ func (w *World) formsPossible(f *ssa.Function, b *ssa.BasicBlock, p ssa.Value, d
 					if isK && k.Value != nil && boolConst(k) {
 						continue // returns true: the caller leaves
 					}
+					if ex, isEx := rt.Results[0].(*ssa.Extract); isEx && ex.Index == 0 {
+						// `return c.helper(d)` whose first result is constantly true
+						if hc, isCall := ex.Tuple.(*ssa.Call); isCall {
+							if hh := hc.Common().StaticCallee(); hh != nil && constBool0(hh, 0) == 1 {
+								continue
+							}
+						}
+					}
 					seen = true
 					for v := range w.formsPossible(h, hb, h.Params[i], depth+1) {
 						union[v] = true
@@ -125,13 +133,7 @@ func ruleNumericCoreFinite(w *World, r *RuleResult) {
 				if n := countKey(r, key); n > 0 {
 					continue // one obligation per (operation, operand, anchor kind)
 				}
-				poss := w.formsPossible(f, c.Block(), p, 0)
-				var others []string
-				for v := range poss {
-					if v != finite {
-						others = append(others, names[v])
-					}
-				}
+				others := w.nonFiniteFormsAt(f, c.Block(), p, finite, names, 0)
 				if len(others) == 0 {
 					r.ok(key, w.instrPos(c), "the dominating tests leave only Form == Finite", true)
 				} else {
@@ -210,4 +212,177 @@ func ruleSystemLimitStops(w *World, r *RuleResult) {
 			r.bad(key, w.instrPos(s), "when setExponent fails with a System* condition it has not stored the exponent, yet "+joinStrings(bad)+" still rounds the destination with whatever exponent it held before: the flags differ between a fresh, a reused and an aliased destination")
 		}
 	}
+}
+
+// nonFiniteFormsAt: the non-finite forms parameter p of f may still have at
+// block b. For an unexported helper the answer is completed at its call
+// sites: an argument that is a local of the caller is an internally computed
+// value (not an operand of the API) and is not questioned; an argument that is
+// the caller's own parameter is judged with the caller's dominating tests.
+func (w *World) nonFiniteFormsAt(f *ssa.Function, b *ssa.BasicBlock, p *ssa.Parameter, finite int64, names map[int64]string, depth int) []string {
+	var others []string
+	for v := range w.formsPossible(f, b, p, 0) {
+		if v != finite {
+			others = append(others, names[v])
+		}
+	}
+	if len(others) == 0 || depth > 3 || f.Object() == nil || f.Object().Exported() {
+		return others
+	}
+	idx := -1
+	for i, q := range f.Params {
+		if q == p {
+			idx = i
+		}
+	}
+	callers := w.callersOf(f)
+	if idx < 0 || len(callers) == 0 {
+		return others
+	}
+	var out []string
+	for _, c := range callers {
+		args := c.Common().Args
+		if c.Common().IsInvoke() || idx >= len(args) {
+			return others
+		}
+		switch base := basePtr(args[idx]).(type) {
+		case *ssa.Alloc:
+			// a value the caller built itself
+		case *ssa.Parameter:
+			out = append(out, w.nonFiniteFormsAt(c.Parent(), c.Block(), base, finite, names, depth+1)...)
+		default:
+			// package constants and the like: not operands
+		}
+	}
+	return uniqStrings(out)
+}
+
+func init() {
+	register(&Rule{ID: "C06.R9", Min: 0,
+		Text: "initialisation order: no package-level variable initialiser (they all run before the first init function) reaches code that reads a package-level variable which is only filled in by an init function — otherwise the value is computed from a zeroed table (the ln 10 tables were rounded with NumDigits reading an empty digitsLookupTable)",
+		Run:  ruleInitOrder})
+}
+
+func ruleInitOrder(w *World, r *RuleResult) {
+	synth := w.SSA.Func("init")
+	if synth == nil {
+		r.anchorMissing("package initialiser")
+		return
+	}
+	// globals mentioned (directly) by each function, then transitively through static callees
+	direct := map[*ssa.Function]map[*ssa.Global]bool{}
+	for _, name := range w.Names {
+		f := w.Funcs[name]
+		m := map[*ssa.Global]bool{}
+		for _, b := range f.Blocks {
+			for _, in := range b.Instrs {
+				for _, op := range in.Operands(nil) {
+					if g, ok := (*op).(*ssa.Global); ok && g.Pkg == w.SSA {
+						m[g] = true
+					}
+				}
+			}
+		}
+		direct[f] = m
+	}
+	var touches func(f *ssa.Function, g *ssa.Global, seen map[*ssa.Function]bool) []string
+	touches = func(f *ssa.Function, g *ssa.Global, seen map[*ssa.Function]bool) []string {
+		if f == nil || seen[f] {
+			return nil
+		}
+		seen[f] = true
+		if direct[f][g] {
+			return []string{w.shortName(f)}
+		}
+		for _, c := range callsIn(f) {
+			if h := callee(c); h != nil && w.inPkg(h) {
+				if p := touches(h, g, seen); p != nil {
+					return append([]string{w.shortName(f)}, p...)
+				}
+			}
+		}
+		return nil
+	}
+	// walk the synthetic initialiser in order
+	var order []ssa.Instruction
+	for _, b := range synth.Blocks {
+		order = append(order, b.Instrs...)
+	}
+	isInitFn := func(f *ssa.Function) bool {
+		return f != nil && f.Pkg == w.SSA && f.Synthetic == "" && len(f.Name()) > 5 && f.Name()[:5] == "init#"
+	}
+	nInit, nObl := 0, 0
+	for i, in := range order {
+		c, ok := in.(ssa.CallInstruction)
+		if !ok {
+			continue
+		}
+		k := callee(c)
+		if !isInitFn(k) {
+			continue
+		}
+		nInit++
+		// globals this init function fills (mentions by address and writes through)
+		for g := range direct[k] {
+			written := false
+			for _, b := range k.Blocks {
+				for _, x := range b.Instrs {
+					switch y := x.(type) {
+					case *ssa.Store:
+						if basePtr(y.Addr) == ssa.Value(g) {
+							written = true
+						}
+					case *ssa.Call:
+						h := callee(y)
+						for ai, a := range y.Common().Args {
+							if basePtr(a) != ssa.Value(g) {
+								continue
+							}
+							if h != nil && w.inPkg(h) {
+								if s, ok := w.sums[h]; ok && ai < len(s.Writes) && len(s.Writes[ai]) > 0 {
+									written = true
+								}
+							} else if ai == 0 {
+								written = true
+							}
+						}
+					}
+				}
+			}
+			if !written {
+				continue
+			}
+			nObl++
+			key := fmt.Sprintf("%s | filled by %s, not used by an earlier initialiser", g.Name(), k.Name())
+			var bad []string
+			for _, prev := range order[:i] {
+				pc, isCall := prev.(ssa.CallInstruction)
+				if !isCall {
+					continue
+				}
+				if path := touches(callee(pc), g, map[*ssa.Function]bool{}); path != nil {
+					bad = append(bad, fmt.Sprintf("the initialiser calling %s at %s reaches %s", w.calleeName(pc), w.instrPos(pc), joinPath(path)))
+				}
+			}
+			if len(bad) > 0 {
+				r.bad(key, w.pos(k.Pos()), "variable initialisers run before every init function: "+joinStrings(bad)+", which reads "+g.Name()+" while it is still zero")
+			} else {
+				r.ok(key, w.pos(k.Pos()), "no variable initialiser reaches a reader of it", true)
+			}
+		}
+	}
+	if nObl == 0 {
+		r.ok("package | init functions fill no package-level tables", "", fmt.Sprintf("%d init function(s); none fills a package-level variable that initialisers could read", nInit), false)
+	}
+}
+
+func joinPath(p []string) string {
+	out := ""
+	for i, s := range p {
+		if i > 0 {
+			out += " → "
+		}
+		out += s
+	}
+	return out
 }
